@@ -256,13 +256,17 @@ def pairs(tier):
     ]
     # the same content with the exploit definitions written in the other order (equal as dictionaries, different
     # numbering of the flat actions)
-    s1r = copy.deepcopy(s1); s1r["name"] = "iso-a"
-    s1r["exploits"] = dict(reversed(list(s1["exploits"].items())))
-    out.append(("yaml_same_content_other_exploit_order", _yaml_desc(s1), _yaml_desc(s1r)))
-    out.append(("dict_same_content_other_exploit_order", {"kind": "dict", "spec": spec_to_json(s1)}, {"kind": "dict", "spec": spec_to_json(s1r)}))
+    ordc = dict(base); ordc.update(cost="frac", exploits="e0e1")        # the two exploits differ in cost AND access level
+    s1c = build(ordc, name="iso-a")
+    s1r = copy.deepcopy(s1c); s1r["name"] = "iso-a"
+    s1r["exploits"] = dict(reversed(list(s1c["exploits"].items())))
+    out.append(("yaml_same_content_other_exploit_order", _yaml_desc(s1c), _yaml_desc(s1r)))
+    out.append(("dict_same_content_other_exploit_order", {"kind": "dict", "spec": spec_to_json(s1c)}, {"kind": "dict", "spec": spec_to_json(s1r)}))
     # one environment replays its plan with the Action OBJECTS of the other one (same layout and action list, other rules)
-    out.append(("action_objects_of_the_other_environment", _yaml_desc(s1), {**_yaml_desc(s2), "borrow_actions": True}))
-    out.append(("action_objects_of_the_other_environment_2", {**_yaml_desc(s2), "borrow_actions": True}, _yaml_desc(s1)))
+    s1y = copy.deepcopy(s1); s1y["name"] = "iso-a"                      # same hosts and actions; one rule differs: 1 -> 2 lets nothing through
+    s1y["firewall"][(1, 2)] = []
+    out.append(("action_objects_of_the_other_environment", _yaml_desc(s1), {**_yaml_desc(s1y), "borrow_actions": True, "same_triples": True}))
+    out.append(("action_objects_of_the_other_environment_2", {**_yaml_desc(s1y), "borrow_actions": True, "same_triples": True}, _yaml_desc(s1)))
     from .family import api_specs
     two_pub = [x for x in api_specs() if x["name"] == "api-2pub"][0]
     out.append(("one_scenario_object_two_environments", {"kind": "dict", "spec": spec_to_json(two_pub), "share_scenario": "sc1"},
@@ -276,7 +280,7 @@ def pairs(tier):
     for sp_, k in ((b1, 10), (b2, 20)):
         sp_["topology"][0][k] = sp_["topology"][k][0] = 1
         sp_["firewall"][(0, k)] = list(sp_["services"]); sp_["firewall"][(k, 0)] = []
-    out.append(("chain31_other_inner_public_subnet", {**_yaml_desc(b1), "max_triples": 1}, {**_yaml_desc(b2), "max_triples": 1}))
+    out.append(("chain31_other_inner_public_subnet", {**_yaml_desc(b1), "max_triples": 1, "max_switches": 3}, {**_yaml_desc(b2), "max_triples": 1}))
     if tier == "thorough":
         out += [
             ("small_gen_seed0_vs_seed3", {"kind": "benchmark", "name": "small-gen", "seed": 0},
@@ -399,11 +403,16 @@ def run(pid, tier):
     jobs = []
     for name, dA, dB in pairs(tier):
         tAs, tBs = action_triples(dA, tier), action_triples(dB, tier)
+        if dA.get("same_triples") or dB.get("same_triples"):
+            # both environments run the SAME plan (same action list by construction): the plans of both, one after the other
+            tAs = tBs = (tAs + tBs)[: (8 if tier == "quick" else 16)]
         m = max(len(tAs), len(tBs))
+        cap_sw = dA.get("max_switches")
+        sch = scheds if (cap_sw is None or max_sw is None or cap_sw >= max_sw) else interleavings(len(PROGRAM), cap_sw)
         for i in range(m):
             tA, tB = tAs[i % len(tAs)], tBs[i % len(tBs)]
             for sides in (["below", "below", "below"], ["below", "above", "below"]):
-                jobs.append((name, dA, dB, tA, tB, sides, scheds))
+                jobs.append((name, dA, dB, tA, tB, sides, sch))
     # split big schedule sets so that all cores are used
     split = []
     for j in jobs:
